@@ -34,6 +34,8 @@ func main() {
 		control = flag.String("control", "", "run one control (overlay) and print its result as JSON")
 		sub     = flag.Bool("sub", false, "sub-run: print obligations as JSON, write no evidence")
 		list    = flag.Bool("list", false, "list registered properties")
+		symbols = flag.String("symbols", "", "symbol table used to map renamed declarations back (default: ../symbols.json beside the binary; 'off' disables)")
+		genSyms = flag.String("gen-symbols", "", "write the symbol table of the tree (union over the build configurations) to this file and exit")
 		mm      = flag.String("metamorph", "", "run on an overlay in which all keto sources are rewritten by a behaviour-preserving transformation (commute|ifelse|rename|parens); prints the obligations that are not discharged")
 	)
 	flag.Parse()
@@ -42,6 +44,25 @@ func main() {
 			fmt.Println(id)
 		}
 		return
+	}
+	if *genSyms != "" {
+		if err := genSymbols(*repo, *genSyms); err != nil {
+			fmt.Fprintf(os.Stderr, "ketosa: %v\n", err)
+			os.Exit(2)
+		}
+		return
+	}
+	switch {
+	case *symbols == "off":
+		symbolsPath = ""
+	case *symbols != "":
+		symbolsPath = *symbols
+	case os.Getenv("KETOSA_SYMBOLS") != "":
+		symbolsPath = os.Getenv("KETOSA_SYMBOLS")
+	default:
+		if self, err := os.Executable(); err == nil {
+			symbolsPath = filepath.Join(filepath.Dir(self), "..", "symbols.json")
+		}
 	}
 	pr := rules.Get(*prop)
 	if pr == nil {
@@ -81,7 +102,7 @@ func main() {
 		return
 	}
 	if *control != "" {
-		runControl(pr, *control, lc, *repo)
+		runControl(pr, *control, lc, *repo, *mm)
 		return
 	}
 	if *mm != "" {
@@ -105,6 +126,12 @@ func main() {
 		os.Exit(2)
 	}
 	extra := map[string]any{}
+	if len(renamedBack) > 0 {
+		extra["renamed_declarations_mapped_back"] = renamedBack
+		for _, r := range renamedBack {
+			fmt.Printf("NOTE: analysed with %s\n", r)
+		}
+	}
 	if *tier == "thorough" {
 		thorough(pr, rep, *repo, extra)
 	}
@@ -153,11 +180,18 @@ func main() {
 	}
 }
 
+// symbolsPath is the table LoadNormalised compares the tree's declarations with.
+var symbolsPath string
+
+// renamedBack is what the last analyse mapped back (for the evidence).
+var renamedBack []string
+
 func analyse(pr *rules.Property, lc core.LoadConfig, tier string, useCHA bool) (*core.Report, error) {
-	p, err := core.Load(lc)
+	p, err := core.LoadNormalised(lc, symbolsPath)
 	if err != nil {
 		return nil, err
 	}
+	renamedBack = p.Renamed
 	rep := core.NewReport(pr.ID)
 	pr.Run(&rules.Ctx{P: p, R: rep, Tier: tier, UseCHA: useCHA})
 	rep.Finish()
@@ -165,7 +199,7 @@ func analyse(pr *rules.Property, lc core.LoadConfig, tier string, useCHA bool) (
 }
 
 // runControl applies one overlay and prints {"applied":bool,"fired":[keys]}.
-func runControl(pr *rules.Property, name string, lc core.LoadConfig, repo string) {
+func runControl(pr *rules.Property, name string, lc core.LoadConfig, repo string, alsoRename string) {
 	ctls := pr.Controls
 	if strings.HasPrefix(name, "seed-") {
 		// a seeded change can be tried against any property's rules
@@ -181,6 +215,17 @@ func runControl(pr *rules.Property, name string, lc core.LoadConfig, repo string
 		}
 		ov, ok := c.Edit(repo)
 		res := map[string]any{"name": name, "applied": ok}
+		if ok && alsoRename != "" {
+			// the edit and, on top of it, a renaming of declarations: a seeded change must
+			// still be reported when the tree it is made in has been renamed
+			ov2, _, err := core.MetamorphDecl(repo, lc.Tags, alsoRename, ov)
+			if err != nil {
+				res["error"] = err.Error()
+				ok = false
+			} else {
+				ov = ov2
+			}
+		}
 		if ok {
 			lc.Overlay = ov
 			rep, err := analyse(pr, lc, "quick", false)
@@ -207,7 +252,16 @@ func runControl(pr *rules.Property, name string, lc core.LoadConfig, repo string
 // runMetamorph rewrites all keto sources by one behaviour-preserving
 // transformation (overlay only) and prints {"applied":n,"fired":[...]}.
 func runMetamorph(pr *rules.Property, kind string, lc core.LoadConfig, repo string) {
-	ov, n, err := core.Metamorph(repo, lc.Tags, kind)
+	var (
+		ov  map[string][]byte
+		n   int
+		err error
+	)
+	if strings.HasPrefix(kind, "rename") && kind != "rename" {
+		ov, n, err = core.MetamorphDecl(repo, lc.Tags, kind, nil)
+	} else {
+		ov, n, err = core.Metamorph(repo, lc.Tags, kind)
+	}
 	res := map[string]any{"name": "metamorph-" + kind, "applied": n > 0, "rewrites": n, "files": len(ov)}
 	if err != nil {
 		res["error"] = err.Error()
@@ -225,6 +279,7 @@ func runMetamorph(pr *rules.Property, kind string, lc core.LoadConfig, repo stri
 			}
 			res["fired"] = fired
 			res["obligations"] = len(rep.Obls)
+			res["mapped_back"] = len(renamedBack)
 		}
 	}
 	b, _ := json.Marshal(res)
@@ -388,7 +443,7 @@ func thorough(pr *rules.Property, base *core.Report, repo string, extra map[stri
 		}(c)
 	}
 	// metamorphic negative controls: the whole tree rewritten by a behaviour-preserving transformation
-	for _, kind := range []string{"commute", "ifelse", "rename", "parens", "swtoif", "derange", "elseafter"} {
+	for _, kind := range []string{"commute", "ifelse", "rename", "parens", "swtoif", "derange", "elseafter", "renamefn", "renamety", "renamefld", "renamevar", "renameexp"} {
 		wg.Add(1)
 		go func(kind string) {
 			defer wg.Done()
@@ -445,4 +500,39 @@ func lastLine(b []byte) []byte {
 		s = s[i+1:]
 	}
 	return []byte(s)
+}
+
+// genSymbols writes the union of the declared symbols under the build
+// configurations the thorough tier analyses.
+func genSymbols(repo, path string) error {
+	cfgs := []struct {
+		name string
+		lc   core.LoadConfig
+	}{
+		{"tags=sqlite", core.LoadConfig{Dir: repo, NoSSA: true}},
+		{"tags=none", core.LoadConfig{Dir: repo, Tags: []string{}, NoSSA: true}},
+		{"tags=sqlite,nomysql,nopostgres,nocockroach", core.LoadConfig{Dir: repo, Tags: []string{"sqlite", "nomysql", "nopostgres", "nocockroach"}, NoSSA: true}},
+		{"goarch=386", core.LoadConfig{Dir: repo, Tags: []string{}, GOARCH: "386", NoSSA: true}},
+	}
+	tab := core.SymbolTable{Note: "declared symbols of ory/keto (non-test, non-generated files) at the tree the rules were confirmed on; used only to recognise renames (sa/internal/core/normalize.go); regenerate with `ketosa -gen-symbols` after a fix: commit"}
+	seen := map[string]bool{}
+	for _, c := range cfgs {
+		p, err := core.Load(c.lc)
+		if err != nil {
+			return err
+		}
+		tab.Configs = append(tab.Configs, c.name)
+		for _, s := range core.Symbols(p) {
+			k := s.Kind + "|" + s.Pkg + "|" + s.Owner + "|" + s.Name
+			if !seen[k] {
+				seen[k] = true
+				tab.Symbols = append(tab.Symbols, s)
+			}
+		}
+	}
+	b, err := json.MarshalIndent(tab, "", " ")
+	if err != nil {
+		return err
+	}
+	return os.WriteFile(path, append(b, '\n'), 0o644)
 }
